@@ -814,3 +814,65 @@ def expand_merges_arg_sets():
                 ents = {n: _P("constant-combinator") for n in ("a", "b", "c", "entity_a", "sink", "sink2")}
                 out.append({"self": cp, "edges": edges, "wire_merge_junctions": junctions or None, "entities": ents, "signal_graph": g})
     return out
+
+
+# =================================================================================================
+# ConnectionPlanner._compute_edge_locked_colors (C02 / C06: the balanced-loader pattern): a source that is a member of several wire merges gets its
+# edges locked per merge — alternating red, green, red ... in the order the merges were created (numeric id suffix, so wire_merge_10 comes after
+# wire_merge_7) — exactly when two of those merges are CHAINED (a sink of one is a source of another: the source's signal would reach a consumer
+# along two paths); without such a chain, or when the source has edges for fewer than two of its merges, nothing is locked.  The key is the
+# PHYSICAL entity the member resolves to.  Evaluated on the REAL method over an enumerated box: bounded.
+# =================================================================================================
+ELQ = "dsl_compiler/src/layout/connection_planner.py::ConnectionPlanner._compute_edge_locked_colors"
+
+
+def _edge_locks_post(a, res):
+    return dict(res) == a.self._scenario["expected"]
+
+
+edge_locks = Contract(qualname=ELQ, params={"self": ty.TOpaque("planner"), "edges": ty.TOpaque("edges"), "merge_membership": ty.TOpaque("membership"), "signal_graph": ty.TOpaque("graph")},
+                      ensures=[("locks exactly for members of chained merges: alternating colours in merge creation order, keyed by the physical source", _edge_locks_post)],
+                      verify=False, properties=("C02", "C06", "C12"), note="evaluated on the real method over an enumerated box (bounded stand-in)")
+CONTRACTS.append(edge_locks)
+
+
+def edge_locks_arg_sets():
+    from dsl_compiler.src.layout.connection_planner import ConnectionPlanner
+    from dsl_compiler.src.layout.signal_graph import SignalGraph
+    from dsl_compiler.src.layout.wire_router import CircuitEdge
+
+    class _Diag:
+        def info(self, *a, **k):
+            pass
+        warning = error = info
+
+    out = []
+    # chest (IR node `chest_out`, entity `chest`) is a member of up to three merges; `avg` is the combinator fed by the first merge
+    for merge_ids in (("wire_merge_7", "wire_merge_10"), ("wire_merge_2", "wire_merge_3"), ("wire_merge_7", "wire_merge_10", "wire_merge_12"), ("wire_merge_5",)):
+        for chained in (False, True):
+            for resolve in (False, True):
+                for edges_for in ("all", "first-only"):
+                    src = "chest" if resolve else "chest_out"
+                    g = SignalGraph()
+                    if resolve:
+                        g.set_source("chest_out", "chest")
+                    edges = []
+                    used = merge_ids if edges_for == "all" else merge_ids[:1]
+                    for i, m in enumerate(used):
+                        sink = "avg" if i == 0 else f"inserter_{i}"
+                        edges.append(CircuitEdge(logical_signal_id="s", resolved_signal_name="bundle", source_entity_id=src, sink_entity_id=sink, originating_merge_id=m))
+                    if chained and len(merge_ids) > 1:
+                        # the combinator fed by the first merge is itself a member of the second merge
+                        edges.append(CircuitEdge(logical_signal_id="avg_out", resolved_signal_name="signal-each", source_entity_id="avg", sink_entity_id="inserter_1",
+                                                 originating_merge_id=merge_ids[1]))
+                    membership = {"chest_out": set(merge_ids), "unrelated": {"wire_merge_99"}}
+                    expected = {}
+                    if chained and len(used) > 1:
+                        order = sorted(used, key=lambda m: int(m.rsplit("_", 1)[-1]))
+                        for i, m in enumerate(order):
+                            expected[(src, m)] = "red" if i % 2 == 0 else "green"
+                    cp = object.__new__(ConnectionPlanner)
+                    cp.diagnostics = _Diag()
+                    cp._scenario = {"merges": merge_ids, "chained": chained, "resolved": resolve, "edges_for": edges_for, "expected": expected}
+                    out.append({"self": cp, "edges": edges, "merge_membership": membership, "signal_graph": g})
+    return out
